@@ -9,9 +9,13 @@ Tie to the code (model: coq/theories/Stream.v, theorems: coq/props/C02.v):
                    requests (the real stream is its own oracle for block); the Coq model must then predict every
                    observed request (subsets, permutations, repeated labels, empty, unknown labels, CRN map empty,
                    positional crn-initialising streams), bit for bit (draws are compared as integers d * 2**53).
-  stream `unrel` : two requests for the same 200 simulants whose (decision point, clock, additional key, seed) are
-                   equal (-> identical draws, fresh objects) or differ in exactly one component (-> at most 2 of 200
-                   positions coincide); the seed string the implementation built is compared with the model's join.
+  stream `unrel` : two requests for the same 48 simulants whose (decision point, clock, additional key, seed) are
+                   equal (-> identical draws, fresh objects) or differ in exactly one component (-> at most 2 of 48
+                   positions coincide: 53-bit draws, false-alarm probability < 1e-40); the seed string the
+                   implementation built is compared with the model's join.  Open finding F-O (seed built as
+                   str(random_seed)+str(additional_seed) without separator; str(additional_key) aliases 1 and '1') is
+                   modelled as the code is (kind 2: equal strings, equal draws); its two witnesses are always run,
+                   fail the direct oracle and are reported as KNOWN-FINDING.
 Direct oracle: get_draw(idx)[i] == get_draw([i])[0] == block element at the simulant's mapped position, range
 check, repeat/history stability, cross-parameter (in)equality.
 """
@@ -28,21 +32,45 @@ RULE = ("req: generated worlds (SimulationContext or hand-wired RandomnessManage
         "40..1e6; 1-12 initial simulants, births) x histories of 0-25 calls (observed get_draw requests: subset / "
         "permutation / repeated / non-contiguous / full / empty / unknown labels; noise calls filter/rate/choice/sample on "
         "same and other streams; clock steps; registrations) x additional keys None/int/str/tuple. unrel: pairs of "
-        "200-simulant requests with equal seed keys or differing in exactly one component. distinct = distinct case "
-        "JSON; trivial = no observed request with >= 2 labels")
+        "48-simulant requests with equal seed keys or differing in exactly one component (plus the two alias classes "
+        "of finding F-O). distinct = distinct case JSON; trivial = no observed request with >= 2 labels")
 ASSUMPTIONS = [
     "block: SHA-1 + numpy RandomState.random_sample give, for equal seed strings, equal blocks with entries k/2**53 in "
     "[0,1) whose first p elements do not depend on the sample size (validated on every draw seen: integrality and range)",
     "IndexMap.update never moves a registered simulant (C03_stable; validated on every registration of every case by "
     "extends_b inside check_req)",
-    "'unrelated' is statistical (SHA-1 / MT19937 are not modelled): at most 2 of 200 coincidences, false-alarm "
-    "probability < 1e-20",
+    "'unrelated' is statistical (SHA-1 / MT19937 are not modelled): at most 2 of 48 coincidences of 53-bit draws, "
+    "false-alarm probability < 1e-40",
+]
+TRUSTED = [
+    "harness/props/c02.py reads the private attribute IndexMap._map (the registered label -> position pairs) to describe "
+    "a CRN world to the model, hand-wires a RandomnessManager through its private attributes (_seed, _clock, "
+    "_key_columns, _key_mapping, _get_randomness_stream) for the cheap `mgr` worlds, and calls RandomnessStream._key to "
+    "compare the seed string.  All three are read defensively: if a name is gone the affected cases are skipped and "
+    "counted (tag private_api_changed / seed string taken from the model), not reported as violations.  Everything "
+    "else goes through public interfaces (builder.randomness.get_stream, stream.get_draw/index_map/clock/seed).",
 ]
 LEVEL_NOTE = ("PARTIAL - pointwise/subset/permutation/repeat/history invariance, [0,1), distinct positions and the seed-string "
               "theorems are proved for all inputs and histories; 'unrelated draws after changing one component' is checked "
               "statistically on real streams only. Known finding F-O (seed concatenation alias) is listed.")
 
+CLAIM = {
+    "technique": "Coq proof of a stateless stream model + vm_compute correspondence with the real stream as its own oracle",
+    "text": "For every index map, seed key and request the Gallina get_draw returns, for each simulant, the block element "
+            "at the simulant's own mapped position: hence the same draw in any subset, order, repetition and after any "
+            "history of calls and (position-preserving) registrations; draws lie in [0,1); distinct simulants use "
+            "distinct positions; changing exactly one of decision point/clock/additional key/seed changes the string "
+            "fed to SHA-1. Each run re-ties the model to /repo/src on ~180 generated worlds x call histories (block read "
+            "off a CRN-free real stream by single-element requests, bit-for-bit comparison) and ~100 request pairs.",
+    "note": "PARTIAL - 'unrelated draws after a change' is statistical (SHA-1/MT19937 not modelled; <=2 of 48 "
+            "coincidences checked on real streams). Trusted: Coq kernel + vm_compute, hand transcription of "
+            "stream.py/index_map.__getitem__/manager seed (sampled tie), python harness, numpy/hashlib. Open finding "
+            "F-O (seed concatenation without separator; str() of additional keys) is modelled as-is, guarded in "
+            "C02_manager_seed_injective_guarded and reported as KNOWN-FINDING.",
+}
+
 TWO53 = 2 ** 53
+N_UNREL = 48
 CORPUS_DIR = os.path.join(VERIF, "corpus", "C02")
 KEY_SCHEMAS = [[], [], ["age"], ["uid"], ["entrance_time", "age"], ["uid", "sexi"], ["entrance_time", "age", "sexi"]]
 STREAM_NAMES = ["a", "b", "mortality", "age_smoothing", "x_y_z", "incidence.tb"]
@@ -50,6 +78,18 @@ STREAM_NAMES = ["a", "b", "mortality", "age_smoothing", "x_y_z", "incidence.tb"]
 
 def cstr(s):
     return czlist(ord(ch) for ch in str(s))
+
+
+def zb(n) -> str:
+    """Z literal; hexadecimal for large values (coqc reads them ~1.5x faster than decimal)."""
+    n = int(n)
+    if -4096 < n < 4096:
+        return cz(n)
+    return f"0x{n:x}%Z" if n >= 0 else f"(-0x{-n:x})%Z"
+
+
+def zblist(ns) -> str:
+    return clist(zb(n) for n in ns)
 
 
 # ----------------------------------------------------------------------------------------------------------------
@@ -132,8 +172,20 @@ def make_component(streams, key_cols, births):
     return StreamProbe()
 
 
+class PrivateAPIChanged(Exception):
+    """A private attribute this harness reads to DESCRIBE the world to the model is gone (renamed/refactored): the
+    affected cases are skipped and counted (tag private_api_changed), never reported as a violation."""
+
+
+def _need(obj, *names):
+    for a in names:
+        if not hasattr(obj, a):
+            raise PrivateAPIChanged(f"{type(obj).__name__}.{a}")
+
+
 class World:
-    """Uniform handle on a real randomness set-up."""
+    """Uniform handle on a real randomness set-up.  Public interfaces where they exist (stream.index_map, stream.clock,
+    stream.seed, len(index_map)); private ones (IndexMap._map, the hand-wired RandomnessManager) through _need."""
 
     def __init__(self, spec):
         import pandas as pd
@@ -153,13 +205,13 @@ class World:
             self.sim.setup()
             self.sim.initialize_simulants()
             boot.quiet_logging()
-            self.mgr = self.sim._randomness
             self.streams = self.comp.streams
             self.n = spec["pop"]
         else:
             from vivarium.framework.randomness.index_map import IndexMap
             from vivarium.framework.randomness.manager import RandomnessManager
             self.mgr = RandomnessManager()
+            _need(self.mgr, "_seed", "_clock", "_key_columns", "_key_mapping", "_get_randomness_stream", "register_simulants")
             s0, s1 = spec["seed"]
             self.mgr._seed = str(s0) + (str(s1) if s1 is not None else "")     # RandomnessManager.setup lines 41-43
             c0 = spec["clock0"]
@@ -175,10 +227,10 @@ class World:
 
     @property
     def imap(self):
-        return self.mgr._key_mapping
+        return next(iter(self.streams.values())).index_map
 
     def clock(self):
-        return self.mgr._clock()
+        return next(iter(self.streams.values())).clock()
 
     def register(self, k):
         import pandas as pd
@@ -191,7 +243,7 @@ class World:
         import pandas as pd
         if self.spec["world"] == "ctx":
             self.sim.step()
-            self.n = len(self.sim._population.get_population(True))
+            self.n += self.births               # the probe component creates `births` simulants on every time step
         else:
             c = self._clock[0]
             self._clock[0] = c + pd.Timedelta(days=1) if isinstance(c, pd.Timestamp) else c + 1
@@ -202,7 +254,10 @@ class World:
     def map_assoc(self):
         """The registered (label, position) pairs as a Coq association list, or None (CRN off / nothing registered)."""
         im = self.imap
-        if not im._use_crn or im._map is None:
+        if not self.key_cols:
+            return None
+        _need(im, "_map", "SIM_INDEX_COLUMN")
+        if im._map is None:
             return None
         labs = [int(x) for x in im._map.index.get_level_values(im.SIM_INDEX_COLUMN)]
         poss = [int(x) for x in im._map.to_numpy()]
@@ -212,7 +267,7 @@ class World:
         """(coq literal, dict label->pos or None, size)"""
         im = self.imap
         size = len(im)
-        if not im._use_crn:
+        if not self.key_cols:
             return f"(NoCRN {cz(size)})", None, size
         a = self.map_assoc()
         if a is None:
@@ -329,6 +384,14 @@ def to_int(d):
 
 
 def run_req(case):
+    try:
+        return _run_req(case)
+    except PrivateAPIChanged as e:
+        return Result(ok=True, msg=f"skipped: private attribute {e} not found", coq=None, key=None,
+                      tags=("private_api_changed",))
+
+
+def _run_req(case):
     import numpy as np
     import pandas as pd
     from scipy import stats
@@ -429,7 +492,7 @@ def run_req(case):
                         fail(f"stream {sname}: draw of simulant {l} is not the block element at its position {p}")
             if len(set(idx)) >= 2:
                 nontrivial = True
-        cops.append(f"CCall {cbool(crn_flag[sname])} {cz(sid)} {czlist(idx)} {cpair(cz(code), czlist(ints))}")
+        cops.append(f"CCall {cbool(crn_flag[sname])} {cz(sid)} {czlist(idx)} {cpair(cz(code), zblist(ints))}")
         trace.append([sname, idx, repr(addl), str(w.clock()), code, ints[:6]])
         tags.add(f"code{code}")
         return ints if code == 0 else None
@@ -491,7 +554,7 @@ def run_req(case):
         except Exception:
             pass
         tags.add(f"noise_{kind}")
-    tbl = clist(cpair(cz(sid), clist(cpair(cz(p), cz(d)) for p, d in sorted(t.items()))) for sid, t in sorted(table.items()))
+    tbl = clist(cpair(cz(sid), clist(cpair(cz(p), zb(d)) for p, d in sorted(t.items()))) for sid, t in sorted(table.items()))
     coq = cpair(lit0, tbl, clist(cops))
     return Result(ok=ok, msg=msg, coq=coq, key=json.dumps(case, sort_keys=True) if nontrivial else None,
                   obs={"trace": trace[:12]}, tags=tuple(sorted(tags)))
@@ -508,6 +571,8 @@ def clock_of(spec):
 
 def gen_unrel(rng: random.Random):
     world = rng.choice(["direct", "direct", "ctx"])
+    if rng.random() < 0.04:
+        return gen_alias(rng, world)          # finding F-O's class (reported as KNOWN-FINDING, never as a violation)
     vary = rng.choice(["key", "clock", "addl", "seed", "none"])
     base = {"key": rng.choice(STREAM_NAMES + ["a_b", "death", "q"]),
             "addl": gen_addl(rng),
@@ -559,8 +624,8 @@ def _diff_count(a, b):
     return sum(1 for x, y in zip(_strings(a), _strings(b)) if x != y)
 
 
-def _draw200(world, side, other_key=None):
-    """Returns (observed seed string, stream.seed, list of 200 ints, all_ok)."""
+def _draw_n(world, side):
+    """Returns (observed seed string, stream.seed, list of N_UNREL ints, all_ok)."""
     import pandas as pd
     from vivarium.framework.randomness.index_map import IndexMap
     from vivarium.framework.randomness.stream import RandomnessStream
@@ -569,55 +634,97 @@ def _draw200(world, side, other_key=None):
         c = clock_of(side["clock"])
         stream = RandomnessStream(side["key"], lambda: c, _seed_str(side["seed"]), IndexMap(size=2000))
     else:
-        spec = {"world": "ctx", "key_cols": [], "streams": [[side["key"], False]] + ([[other_key, False]] if other_key else []),
-                "pop": 200, "map_size": 1000, "seed": side["seed"], "births": 0}
+        spec = {"world": "ctx", "key_cols": [], "streams": [[side["key"], False]],
+                "pop": N_UNREL, "map_size": 1000, "seed": side["seed"], "births": 0}
         w = World(spec)
         for _ in range(side["clock"][1]):
             w.step()
         stream = w.streams[side["key"]]
-    d = stream.get_draw(pd.Index(range(200)), addl)
+    d = stream.get_draw(pd.Index(range(N_UNREL)), addl)
     ints, good = [], True
     for x in d.tolist():
         i, integral = to_int(x)
         good = good and integral and 0.0 <= x < 1.0
         ints.append(i)
-    return stream._key(addl), stream.seed, ints, good
+    keyfn = getattr(stream, "_key", None)        # private: the seed string is compared only when it can be observed
+    observed = keyfn(addl) if callable(keyfn) else "_".join(_strings(side)[:3] + (str(stream.seed),))
+    return observed, stream.seed, ints, good
+
+
+ALIAS_KINDS = ("seedcfg_alias", "addl_alias")
 
 
 def run_unrel(case):
     a, b = case["a"], case["b"]
-    sa = _draw200(case["world"], a)
-    sb = _draw200(case["world"], b)
+    try:
+        sa = _draw_n(case["world"], a)
+        sb = _draw_n(case["world"], b)
+    except PrivateAPIChanged as e:
+        return Result(ok=True, msg=f"skipped: private attribute {e} not found", coq=None, key=None,
+                      tags=("private_api_changed",))
     same = sum(1 for x, y in zip(sa[2], sb[2]) if x == y)
-    ok, msg = True, ""
-    expect_equal = case["vary"] == "none"
+    ok, msg, cls = True, "", None
+    vary = case["vary"]
+    expect_equal = vary == "none"
     if not (sa[3] and sb[3]):
         ok, msg = False, "a draw is outside [0,1) or not a multiple of 2**-53"
-    elif expect_equal and same != 200:
+    elif expect_equal and same != N_UNREL:
         ok, msg = False, (f"two fresh streams with the same decision point, clock, additional key and seed {_strings(a)} "
-                          f"agree on only {same} of 200 draws")
+                          f"agree on only {same} of {N_UNREL} draws")
     elif not expect_equal and same > 2:
-        ok, msg = False, (f"requests differing only in {case['vary']} ({_strings(a)} vs {_strings(b)}; configured seeds "
-                          f"{a['seed']} vs {b['seed']}) coincide on {same} of 200 draws")
+        ok, msg = False, (f"requests differing only in {vary} ({_strings(a)} vs {_strings(b)}; configured seeds "
+                          f"{a['seed']} vs {b['seed']}; additional keys {addl_of(a['addl'])!r} vs {addl_of(b['addl'])!r}) "
+                          f"coincide on {same} of {N_UNREL} draws")
+        # finding F-O: the two sides differ as configured VALUES but not after str()/concatenation, nothing else differs
+        if vary in ALIAS_KINDS and _strings(a) == _strings(b) and same == N_UNREL:
+            cls = "F-O"
 
     def side(s, obs):
         k = _strings(s)
         sk = "{| sk_key := %s; sk_clock := %s; sk_addl := %s; sk_seed := %s |}" % (cstr(k[0]), cstr(k[1]), cstr(k[2]), cstr(obs[1]))
         cfg = cpair(cstr(s["seed"][0]), copt(s["seed"][1], cstr))
-        return cpair(sk, cfg, cstr(obs[0]), czlist(obs[2]))
-    coq = cpair(cz(0 if expect_equal else 1), side(a, sa), side(b, sb))
+        return cpair(sk, cfg, cstr(obs[0]), zblist(obs[2]))
+    # model kinds (Stream.v check_unrel): 0 equal strings -> equal draws; 1 exactly one string differs -> unrelated;
+    # 2 configured seeds differ but concatenate equally -> equal strings and draws (F-O, modelled as the code is).
+    # An additional-key alias (1 vs '1') is invisible at the level of strings: kind 0.
+    kind = 0 if vary in ("none", "addl_alias") else 2 if vary == "seedcfg_alias" else 1
+    coq = cpair(cz(kind), side(a, sa), side(b, sb))
     return Result(ok=ok, msg=msg, coq=coq, key=json.dumps(case, sort_keys=True),
-                  obs={"seed_strings": [sa[0], sb[0]], "coincide": same, "first": [sa[2][:3], sb[2][:3]]},
-                  tags=(f"vary_{case['vary']}", f"world_{case['world']}", "coincide_%s" % ("200" if same == 200 else min(same, 3))))
+                  obs={"seed_strings": [sa[0], sb[0]], "coincide": same, "first": [sa[2][:3], sb[2][:3]], "class": cls},
+                  tags=(f"vary_{vary}", f"world_{case['world']}",
+                        "coincide_%s" % ("all" if same == N_UNREL else min(same, 3))))
 
 
 def finding_unrel(case, res):
-    """F-O: the configured (random_seed, additional_seed) pairs differ but their concatenations are equal."""
-    a, b = case["a"], case["b"]
-    if a["seed"] != b["seed"] and _seed_str(a["seed"]) == _seed_str(b["seed"]) and \
-            (a["key"], a["clock"], a["addl"]) == (b["key"], b["clock"], b["addl"]):
+    """F-O: the configured (random_seed, additional_seed) pairs - or the additional keys - differ as values but are equal
+    after string conversion / concatenation, everything else being equal, and the draws are identical (class set by the
+    oracle only in exactly that situation)."""
+    if isinstance(res.obs, dict) and res.obs.get("class") == "F-O":
         return "F-O"
     return None
+
+
+def gen_alias(rng, world):
+    base = {"key": rng.choice(STREAM_NAMES), "addl": None, "seed": [1, 23],
+            "clock": ["ts", "2005-07-01"] if world == "direct" else ["steps", rng.randint(0, 1)]}
+    other = dict(base)
+    if rng.random() < 0.5:
+        sa, sb = rng.choice([([1, 23], [12, 3]), ([12, None], [1, 2]), ([98, 765], [9876, 5])])
+        base["seed"], other["seed"] = list(sa), list(sb)
+        return {"world": world, "vary": "seedcfg_alias", "a": base, "b": other}
+    base["addl"], other["addl"] = rng.choice([(["int", 1], ["str", "1"]), (None, ["str", "None"]), (["int", 7], ["str", "7"])])
+    return {"world": world, "vary": "addl_alias", "a": base, "b": other}
+
+
+# the two witnesses of finding F-O (DESIGN.md section 7 / known_findings.json): always run
+FO_CORPUS = [
+    {"world": "ctx", "vary": "seedcfg_alias",
+     "a": {"key": "mortality", "addl": None, "seed": [1, 23], "clock": ["steps", 0]},
+     "b": {"key": "mortality", "addl": None, "seed": [12, 3], "clock": ["steps", 0]}},
+    {"world": "direct", "vary": "addl_alias",
+     "a": {"key": "mortality", "addl": ["int", 1], "seed": [0, None], "clock": ["ts", "2005-07-01"]},
+     "b": {"key": "mortality", "addl": ["str", "1"], "seed": [0, None], "clock": ["ts", "2005-07-01"]}},
+]
 
 
 def corpus(stream):
@@ -632,9 +739,10 @@ def corpus(stream):
 def streams(tier):
     return [
         Stream(name="req", imports="From Viv Require Import Common Stream.", check="check_req", gen=gen_req, run=run_req,
-               n_quick=260, n_thorough=4000, corpus=lambda: corpus("req"),
+               n_quick=180, n_thorough=1200, corpus=lambda: corpus("req"),
                doc="worlds x call histories; block read off a CRN-free real stream by single-element requests"),
         Stream(name="unrel", imports="From Viv Require Import Common Stream.", check="check_unrel", gen=gen_unrel,
-               run=run_unrel, n_quick=120, n_thorough=1500, corpus=lambda: corpus("unrel"), finding_of=finding_unrel,
-               doc="equal seed keys -> equal draws; exactly one component changed -> at most 2 of 200 coincide"),
+               run=run_unrel, n_quick=100, n_thorough=600, corpus=lambda: list(FO_CORPUS) + corpus("unrel"),
+               finding_of=finding_unrel,
+               doc="equal seed keys -> equal draws; exactly one component changed -> at most 2 of 48 coincide; F-O aliases"),
     ]
